@@ -101,6 +101,17 @@ def handle (stream : String) (args : List String) : String :=
     | some n =>
       let r := exchangeForeignOffer ⟨.webrtc, none⟩ ⟨.webrtc, none⟩ (parseOffer o) n
       s!"{roleText r.1.role} {roleText r.2.role}"
+  | "muxsdp", [mo, lo, ma, la] =>
+    let offerMux := sectionHasMux (mo = "1") (lo = "1") .offer false
+    let answerMux := sectionHasMux (ma = "1") (la = "1") .answer offerMux
+    -- Rtp mode: `a=rtcp:<port>` is written when the section has no rtcp-mux and an RTCP socket was bound
+    let offerRtcp := !offerMux && needsRtcpSocket (mo = "1") (lo = "1") .offer false
+    let answerRtcp := !answerMux && needsRtcpSocket (ma = "1") (la = "1") .answer offerMux
+    s!"mux={b01 offerMux}/{b01 answerMux} rtcp={b01 offerRtcp}/{b01 answerRtcp}"
+  | "dcpre", [ro, ra] =>
+    match parseRole ro, parseRole ra with
+    | some ro, some ra => s!"{dcAlloc ro []} {dcAlloc ra []}"
+    | _, _ => "bad-role"
   | "dc", [r, used] =>
     match parseRole r with
     | none => "bad-role"
